@@ -749,6 +749,19 @@ func init() {
 				s.Doc.AddMathFormula(f, s.R.Bool())
 				return
 			}
+			if s.R.Chance(1, 4) {
+				// formula markup written by hand or copied from another document: fragments that bring a namespace prefix of their own,
+				// and fragments that use such a prefix without bringing it (each is judged by what it says itself)
+				s.Doc.AddMathFormula([]string{
+					`<m:r xmlns:w14="http://schemas.microsoft.com/office/word/2010/wordml"><m:rPr><m:sty m:val="p"/></m:rPr><w14:x/><m:t>a</m:t></m:r>`,
+					`<m:r><w14:x/><m:t>b</m:t></m:r>`,
+					`<m:r xmlns:q="urn:q" q:a="1"><m:t>c</m:t></m:r>`,
+					`<m:r q:a="1"><m:t>d</m:t></m:r>`,
+					`<m:r><m:t xmlns:w14="urn:w14">e</m:t></m:r><m:r><w14:y/><m:t>f</m:t></m:r>`,
+					`<m:r><m:t>g</m:t></m:r>`,
+				}[s.R.Intn(6)], s.R.Bool())
+				return
+			}
 			om, err := markdown.LaTeXToOMMLString([]string{"x^2", "\\frac{a}{b}", "\\sqrt{x}+\\alpha", "a_i^2 \\leq b", "\\sum_{i=0}^n i", "E = mc^2", "<&>"}[s.R.Intn(7)], s.R.Bool())
 			if err == nil {
 				s.Doc.AddMathFormula(om, s.R.Bool())
